@@ -10,14 +10,88 @@ from . import core
 
 WALKER = "pysmt.simplifier.Simplifier"
 
+# rules that go through the binary-string representation: proved per width (Pw)
+WIDTH_FAMILY_OPS = (S.BV_EXTRACT, S.BV_ROL, S.BV_ROR, S.BV_SEXT, S.BV_ZEXT)
+WIDTHS = {"quick": (1, 2, 3, 4), "thorough": (1, 2, 3, 4, 5, 6, 8)}
+
 ARITIES = {
     S.AND: (2, 3), S.OR: (2, 3), S.PLUS: (2, 3), S.TIMES: (2, 3), S.STR_CONCAT: (2, 3),
     S.FUNCTION: (1, 2), S.ARRAY_VALUE: (1, 3, 5),
 }
 
 
-def val_eq(a, b):
-    return S.val(a) == S.val(b)
+def rule_hyps(a, c):
+    """what the traversal guarantees about a simplified child a of c"""
+    return [S.type_of(a) == S.type_of(c), S.val(a) == S.val(c), S.semf(a) == S.semf(c),
+            z3.IsSubset(S.fv(a), S.fv(c)), z3.Implies(S.isconst(c), S.isconst(a))]
+
+
+def rule_goals(v, f, Kop, args):
+    goals = [("type-preserved", S.type_of(v) == S.type_of(f)),
+             ("no-new-free-symbols", z3.IsSubset(S.fv(v), S.fv(f))),
+             ("constant-stays-constant", z3.Implies(S.isconst(f), S.isconst(v)))]
+    if Kop in S.QUANT_OPS:
+        goals.append(("value-preserved", S.semf(v) == S.semf(f)))
+    else:
+        goals.append(("value-preserved", S.val(v) == S.val(f)))
+        if args and Kop != S.FUNCTION:
+            allc = [S.isconst(a) for a in args]
+            if Kop == S.DIV:      # C02 excludes evaluated divisions by zero
+                allc.append(z3.Not(z3.Or(S.val(args[1]) == S.VInt(0), S.val(args[1]) == S.VReal(0))))
+            goals.append(("C02:ground-complete", z3.Implies(z3.And(allc), S.isconst(v))))
+    return goals
+
+
+class WalkNotSummary(core.Contract):
+    """Simplifier.walk_not used from walk_and / walk_or: its own rule contract R
+    (proved as walk_not[NOT/1]); callers see nothing else of it."""
+    qualname = "pysmt.simplifier.Simplifier.walk_not"
+
+    def when(self, ex, a, kw):
+        return ex.depth > 0
+
+    def apply(self, ex, a, kw):
+        args = a[2] if len(a) > 2 else kw["args"]
+        ex.oblige("requires:walk_not:bool-argument", S.type_of(args[0]) == S.BoolT)
+        r = ex.fresh("notres", Node)
+        self.world.touch(ex, r)
+        for n, g in not_callee_post(r, args[0]):
+            ex.assume(g)
+        return r
+
+
+def not_callee_post(r, a):
+    """what walk_and / walk_or use of walk_not(_, [a]): the formula argument is ignored"""
+    return [("type", S.type_of(r) == S.BoolT),
+            ("value", S.val(r) == S.VBool(z3.Not(S.vb(S.val(a))))),
+            ("free-symbols", z3.IsSubset(S.fv(r), S.fv(a)))]
+
+
+class WalkNotCalleeVariant(Variant):
+    """proves WalkNotSummary on the real body: any `formula`, one Bool argument"""
+    prop_ids = ("C01", "C02")
+    qualname = "pysmt.simplifier.Simplifier.walk_not"
+    name = "walk_not[callee-contract]"
+
+    def __init__(self, world):
+        self.world = world
+
+    def setup(self, ex):
+        W = self.world
+        env = core.make_env(ex, W)
+        W.contracts.pop(WalkNotSummary.qualname, None)
+        self.formula, self.a = z3.Const("formula", Node), z3.Const("sarg0", Node)
+        W.touch(ex, self.formula)
+        W.touch(ex, self.a)
+        ex.assume(S.type_of(self.a) == S.BoolT)
+        fi = W.repo.func(self.qualname)
+        return W.wrap_func(fi, fi.module, bound=env.fields["_simplifier"]), [self.formula], {"args": [self.a]}
+
+    def check(self, ex, outcome):
+        if outcome[0] == "raise":
+            return [("no-exception", z3.BoolVal(False))]
+        self.world.touch(ex, outcome[1])
+        return not_callee_post(outcome[1], self.a)
 
 
 class RuleVariant(Variant):
@@ -26,8 +100,8 @@ class RuleVariant(Variant):
     new free symbols, no exception; constants in => constant out (C02)."""
     prop_ids = ("C01", "C02")
 
-    def __init__(self, world, Kop, k, target, width=None):
-        self.world, self.Kop, self.k, self.width = world, Kop, k, width
+    def __init__(self, world, Kop, k, target, width=None, tier="quick"):
+        self.world, self.Kop, self.k, self.width, self.tier = world, Kop, k, width, tier
         self.qualname = target
         self.name = "%s[%s/%d%s]" % (target.rsplit(".", 1)[1], S.OPNAMES[Kop], k,
                                      "" if width is None else "/w%d" % width)
@@ -46,6 +120,14 @@ class RuleVariant(Variant):
         self.formula, self.args = formula, args
         ex.assume(S.op(formula) == self.Kop)
         W.learn(ex, formula, op=self.Kop, k=self.k)
+        if self.Kop in WIDTH_FAMILY_OPS:
+            ex.ghost["width_family"] = WIDTHS[self.tier]
+        if "walk_not" not in self.qualname:
+            c = WalkNotSummary()
+            c.world = W
+            W.contracts[c.qualname] = c
+        else:
+            W.contracts.pop(WalkNotSummary.qualname, None)
         if self.width is not None:
             ex.assume(z3.Or(z3.Not(Ty.is_BVT(S.type_of(formula))), Ty.bvw(S.type_of(formula)) == self.width))
             for i in range(self.k):
@@ -53,11 +135,10 @@ class RuleVariant(Variant):
                 ex.assume(z3.Or(z3.Not(Ty.is_BVT(t)), Ty.bvw(t) == self.width))
         for i, a in enumerate(args):
             c = S.arg(formula, S.K(i))
-            ex.assume(S.type_of(a) == S.type_of(c))
-            ex.assume(S.val(a) == S.val(c))
-            ex.assume(z3.IsSubset(S.fv(a), S.fv(c)))
-            for f in spec.shallow_facts(a):
+            W.touch(ex, c)
+            for f in W.cached_facts(("rule-req", a.get_id(), c.get_id(), a, c), lambda a=a, c=c: rule_hyps(a, c)):
                 ex.assume(f)
+            W.touch(ex, a)
         # the quantifier's division-by-zero exclusion is handled by the
         # unconstrained functions int_div0 / real_div0 of the specification
         fi = W.repo.func(self.qualname)
@@ -70,16 +151,8 @@ class RuleVariant(Variant):
             return [("no-exception", z3.BoolVal(False))]
         if not is_node(v):
             return [("returns-node", z3.BoolVal(False))]
-        f = self.formula
-        goals = [
-            ("type-preserved", S.type_of(v) == S.type_of(f)),
-            ("value-preserved", S.val(v) == S.val(f)),
-            ("no-new-free-symbols", z3.IsSubset(S.fv(v), S.fv(f))),
-        ]
-        if self.args:
-            allc = z3.And([S.isconst(a) for a in self.args])
-            goals.append(("C02:ground-complete", z3.Implies(allc, S.isconst(v))))
-        return goals
+        self.world.touch(ex, v)
+        return rule_goals(v, self.formula, self.Kop, self.args)
 
     def witness(self, model, ex):
         from pyvc.concretize import node_to_json
@@ -88,7 +161,11 @@ class RuleVariant(Variant):
                 "args": [node_to_json(model, a, depth=3) for a in self.args]}
 
 
-def variants(world, only=None):
+REPLAY_KIND = "simplifier-rule"
+DEADLINE = {"quick": 240, "thorough": 3000}
+
+
+def variants(world, tier="quick", only=None):
     disp = world.repo.dispatch(WALKER)
     out = []
     for Kop in range(S.NOPS):
@@ -101,5 +178,12 @@ def variants(world, only=None):
             continue
         ks = ARITIES.get(Kop, (S.FIXED_ARITY.get(Kop),))
         for k in ks:
-            out.append(RuleVariant(world, Kop, k, target))
+            v = RuleVariant(world, Kop, k, target, tier=tier)
+            if Kop in WIDTH_FAMILY_OPS:
+                v.bounded = "width"
+            if tier == "quick" and Kop in (S.AND, S.OR):
+                v.max_arity = 2
+            out.append(v)
+    if not only or "walk_not" in only:
+        out.append(WalkNotCalleeVariant(world))
     return out
